@@ -64,7 +64,7 @@
 From stdpp Require Import gmap.
 From RecordUpdate Require Import RecordUpdate.
 From Coq Require Import NArith.
-From OC Require Import Base.Bytes Model.P2Pure Model.Proto2 Model.P2Inst Proofs.P2Base Proofs.P2Phases Proofs.P2_Failure Proofs.P2_Crash Proofs.P2_Rollback.
+From OC Require Import Base.Bytes Model.P2Pure Model.Proto2 Model.P2Inst Proofs.P2Base Proofs.P2Phases Proofs.P2_Failure Proofs.P2_Crash Proofs.P2_Rollback Proofs.P2_RollbackFrozen.
 From OC Require Import Proofs.P2PureRollbackBool Proofs.P2PureRollbackEx.
 Open Scope N_scope.
 
@@ -241,6 +241,20 @@ Section C06.
     (default ch_empty (p_rbvalues P))).
   Proof. exact (@rollback_commit V Ch Req D candidate candidate_rb rollback_of overlay commit_merge payload record_applied touched restore resync_payload doc_ok dev_apply stamp v_empty d_empty ch_empty). Qed.
 
+  (* what a validation recorded - the rollback values, the rollback index - and the details of the proposal never change
+     once the proposal is validated: ANY step (every label, oracle, crash prefix) from ANY world *)
+  Theorem C06_recorded_values_frozen : forall (w : world) l k (P P' : @prop Ch),
+    props w !! k = Some P -> props (step w l) !! k = Some P' -> p_validate P = Some Done ->
+    p_details P' = p_details P /\ p_rbvalues P' = p_rbvalues P /\ p_rbindex P' = p_rbindex P.
+  Proof. exact (@recorded_frozen V Ch Req D candidate candidate_rb rollback_of overlay commit_merge payload record_applied touched restore resync_payload doc_ok dev_apply stamp v_empty d_empty ch_empty). Qed.
+
+  (* ... along any list of steps in whose worlds the proposal is validated *)
+  Theorem C06_recorded_values_frozen_run : forall (ls : list (@label Ch)) (w : world) k (P P' : @prop Ch),
+    props w !! k = Some P -> props (fold_left step ls w) !! k = Some P' -> p_validate P = Some Done ->
+    @stays_validated V Ch Req D candidate candidate_rb rollback_of overlay commit_merge payload record_applied touched restore resync_payload doc_ok dev_apply stamp v_empty d_empty ch_empty k w ls ->
+    p_details P' = p_details P /\ p_rbvalues P' = p_rbvalues P /\ p_rbindex P' = p_rbindex P.
+  Proof. exact (@recorded_frozen_run V Ch Req D candidate candidate_rb rollback_of overlay commit_merge payload record_applied touched restore resync_payload doc_ok dev_apply stamp v_empty d_empty ch_empty). Qed.
+
 End C06.
 
 (** Value level: the concrete pure layer Model/P2Pure.v *)
@@ -320,6 +334,8 @@ Print Assumptions C06_refused_alters_nothing.
 Print Assumptions C06_change_records_rollback_values.
 Print Assumptions C06_rollback_uses_recorded_values.
 Print Assumptions C06_rollback_commit_replays.
+Print Assumptions C06_recorded_values_frozen.
+Print Assumptions C06_recorded_values_frozen_run.
 Print Assumptions C06_rollback_restores_values.
 Print Assumptions C06_rollback_restores_values_any_view.
 Print Assumptions C06_rollback_wf_preserved.
